@@ -99,6 +99,7 @@ type ContractSet struct {
 	Preds map[string]*Pred
 	Files []string
 	NAssume int
+	UsesPublished bool
 	TypeInvs map[string][]*Clause // struct type name -> invariants over `self` (pointer to the struct)
 }
 
@@ -135,6 +136,9 @@ func ParseContracts(files ...string) (*ContractSet, error) {
 }
 
 func (cs *ContractSet) parseFile(fname, src string) error {
+	if strings.Contains(src, "published(") {
+		cs.UsesPublished = true
+	}
 	lines := strings.Split(src, "\n")
 	// join continuation lines
 	type ln struct {
